@@ -78,7 +78,7 @@ def main():
             if m["kind"] == "breaking":
                 allok = True
                 for ex in m["expect"]:
-                    rc, out = run_check(d, ex["prop"])
+                    rc, out = run_check(d, ex["prop"], m.get("tier", "quick"))
                     if "FATAL" in out and "cargo check failed" in out:
                         print("BROKEN %-45s does not compile" % m["name"])
                         res["broken"] += 1
@@ -99,7 +99,7 @@ def main():
             else:
                 bad = []
                 for prop in m["props"]:
-                    rc, out = run_check(d, prop)
+                    rc, out = run_check(d, prop, m.get("tier", "quick"))
                     if rc != 0:
                         bad.append(prop)
                         if verbose:
